@@ -155,6 +155,57 @@ Proof.
 Qed.
 Print Assumptions C30_dial_history_validated.
 
+(* 10. Check-then-use.  The address handed to the dialer is an explicit output of the decision: it is
+       a member of the ONE answer that was vetted, it passes the policy, the dialled text is that
+       address (never the host name), one connection makes exactly one resolver call, and whatever a
+       rebinding resolver would answer to later lookups has no influence. *)
+Theorem C30_dial_target_vetted :
+  (forall answer a, imageBoxDialDecision answer = Some a ->
+     exists ips, answer = Some ips /\ In a ips /\ rejectImageBoxIPs ips = true /\ imageBoxBlockedIP a = false /\
+       (wf_ips ips -> private_or_local a = false /\ forall b, In b ips -> private_or_local b = false)) /\
+  (forall answer script, imageBoxDial answer script =
+     match answer with
+     | None => DResolveErr
+     | Some _ => match imageBoxDialDecision answer with
+                 | Some a => DDialled [dialTarget a] (hd false script)
+                 | None => DRejected
+                 end
+     end) /\
+  (forall allowed host answer a, In a (revocationDialCandidates allowed host answer) ->
+     exists ips, answer = Some ips /\ In a ips /\ validateRevocationIPs host ips allowed = true /\
+       (allowedLookup allowed (normalizeRevocationHost host) = false ->
+          revocationBlockedIP a = false /\
+          (wf_ips ips -> private_or_local a = false /\ forall b, In b ips -> private_or_local b = false))) /\
+  (forall allowed host answer script, revocationDial allowed host answer script =
+     match answer with
+     | None => DResolveErr
+     | Some ips => if validateRevocationIPs host ips allowed
+                   then let (ts, c) := dialLoop (revocationDialCandidates allowed host answer) script in DDialled ts c
+                   else DRejected
+     end) /\
+  (forall allowed host first later later' script,
+     fst (fst (imageBoxConnect (first :: later) script)) = fst (fst (imageBoxConnect (first :: later') script)) /\
+     fst (fst (revocationConnect allowed host (first :: later) script)) =
+     fst (fst (revocationConnect allowed host (first :: later') script)) /\
+     snd (fst (imageBoxConnect (first :: later) script)) = 1 /\
+     snd (fst (revocationConnect allowed host (first :: later) script)) = 1 /\
+     snd (imageBoxConnect (first :: later) script) = later /\
+     snd (revocationConnect allowed host (first :: later) script) = later).
+Proof.
+  split; [|split; [|split; [|split]]].
+  - intros answer a H. destruct (imageBoxDialDecision_sound answer a H) as (ips & E & I1 & V & NB & P).
+    exists ips. split; [exact E|]. split; [exact I1|]. split; [exact V|]. split; [exact NB|].
+    intros W. apply P. apply wf_bytes. exact W.
+  - exact imageBoxDial_decision.
+  - intros allowed host answer a H.
+    destruct (revocationDialCandidates_sound allowed host answer a H) as (ips & E & I1 & V & P).
+    exists ips. split; [exact E|]. split; [exact I1|]. split; [exact V|].
+    intros NA. destruct (P NA) as [NB Q]. split; [exact NB|]. intros W. apply Q. apply wf_bytes. exact W.
+  - exact revocationDial_candidates.
+  - exact connect_first_answer_only.
+Qed.
+Print Assumptions C30_dial_target_vetted.
+
 (* ---- non-vacuity: hypotheses satisfiable, both outcomes occur *)
 Definition pub1 : ip := [93;184;216;34].
 Definition pub6 : ip := [0x20;0x01;0x0d;0xb8;0;0;0;0;0;0;0;0;0;0;0;1].
@@ -196,3 +247,15 @@ Example C30_outside_scope_not_blocked :
   /\ revocationBlockedIP [0x20;0x02;10;0;0;1;0;0;0;0;0;0;0;0;0;1] = false       (* 2002:0a00:0001:: 6to4 of 10.0.0.1 *)
   /\ revocationBlockedIP [0xfe;0xc0;0;0;0;0;0;0;0;0;0;0;0;0;0;1] = false.       (* fec0::/10 site-local (deprecated) *)
 Proof. vm_compute. repeat split. Qed.
+
+(* DNS rebinding script: first answer public, second answer loopback -- the connection dials the public
+   address, calls the resolver once, and leaves the poisoned answer unconsumed *)
+Example C30_rebinding_nonvacuous :
+  imageBoxConnect [Some [pub1; pub6]; Some [[127;0;0;1]]] [true] = (DDialled [pub1] true, 1, [Some [[127;0;0;1]]]) /\
+  imageBoxDialDecision (Some [pub1; pub6]) = Some pub1 /\
+  imageBoxDialDecision (Some [pub1; [169;254;169;254]]) = None /\
+  revocationConnect [] host_a [Some [pub6; pub1]; Some [[127;0;0;1]]] [false; true]
+    = (DDialled [pub6; pub1] true, 1, [Some [[127;0;0;1]]]) /\
+  revocationDialCandidates [] host_a (Some [pub6; pub1]) = [pub6; pub1] /\
+  revocationDialCandidates [] host_a (Some [pub6; [10;0;0;1]]) = [].
+Proof. vm_compute. repeat split; reflexivity. Qed.
